@@ -16,7 +16,7 @@ HOLDS = ["p2p-client", "bus-global-1", "bus-client-1", "twin-global", "twinc-glo
 HOLDS_THOROUGH = ["bus-global", "bus-client", "fan-client"]
 REFUTED = ["p2p-none", "twin-client", "twinc-client"]
 NETS = {"quick": [("p2p", 5), ("bus", 4), ("twin", 4), ("twinc", 3), ("fan", 3)],
-        "thorough": [("p2p", 7), ("bus", 5), ("twin", 6), ("twinc", 5), ("fan", 5)]}
+        "thorough": [("p2p", 6), ("bus", 5), ("twin", 5), ("twinc", 4), ("fan", 4)]}
 
 
 def actions_of(net):
